@@ -609,19 +609,69 @@ func sortedKeysOf(m map[string]string) []string {
 
 // stepSide: does v (a Sample value or field of it) come from the left or the right input step?
 func stepSides(fn *ssa.Function) (map[ssa.Value]string, map[*ssa.Alloc]string) {
-	// locals passed to i.left.Next(&x) / i.right.Next(&x)
+	// locals passed to i.left.Next(&x) / i.right.Next(&x), directly or through a helper of the
+	// iterator that forwards its step parameters to the two inputs (i.next(&l, &r))
 	cells := map[*ssa.Alloc]string{}
+	sideOfNext := func(f *ssa.Function, call *ssa.Call) (string, ssa.Value) {
+		if !invokeIs(call, "Next") || len(f.Params) == 0 {
+			return "", nil
+		}
+		fld, base, ok := loadOfField(call.Call.Value)
+		if !ok || (fld != "left" && fld != "right") {
+			return "", nil
+		}
+		// the field of the receiver, or of a struct embedded in the receiver
+		for d := 0; d < 2; d++ {
+			if base == ssa.Value(f.Params[0]) {
+				return fld, call.Call.Args[0]
+			}
+			if _, b2, ok := fieldNameOf(base); ok {
+				base = b2
+			} else {
+				break
+			}
+		}
+		return "", nil
+	}
 	for _, c := range callsIn(fn) {
 		call, ok := c.(*ssa.Call)
-		if !ok || !invokeIs(call, "Next") {
+		if !ok {
 			continue
 		}
-		f, base, ok := loadOfField(call.Call.Value)
-		if !ok || base != ssa.Value(fn.Params[0]) {
+		if sd, arg := sideOfNext(fn, call); sd != "" {
+			if al, ok := arg.(*ssa.Alloc); ok {
+				cells[al] = sd
+			}
 			continue
 		}
-		if al, ok := call.Call.Args[0].(*ssa.Alloc); ok && (f == "left" || f == "right") {
-			cells[al] = f
+		h := staticCallee(call)
+		if h == nil || h.Blocks == nil || h.Pkg != fn.Pkg || len(call.Call.Args) == 0 {
+			continue
+		}
+		// the helper must be called on the iterator (or a struct embedded in it)
+		recv := call.Call.Args[0]
+		if _, b2, ok := fieldNameOf(recv); ok {
+			recv = b2
+		}
+		if recv != ssa.Value(fn.Params[0]) {
+			continue
+		}
+		for _, hc := range callsIn(h) {
+			hcall, ok := hc.(*ssa.Call)
+			if !ok {
+				continue
+			}
+			sd, arg := sideOfNext(h, hcall)
+			if sd == "" {
+				continue
+			}
+			for k, prm := range h.Params {
+				if arg == ssa.Value(prm) && k < len(call.Call.Args) {
+					if al, ok := call.Call.Args[k].(*ssa.Alloc); ok {
+						cells[al] = sd
+					}
+				}
+			}
 		}
 	}
 	return nil, cells
